@@ -398,21 +398,16 @@ def hyps_refutable(ob, str_axioms, budget_ms=10000):
     """vacuity probe: are the hypotheses of the obligation contradictory?  (sound only in the `True` direction)"""
     from .state import Obligation
     probe = Obligation(ob.name + "#feasible", ob.hyps, z3.BoolVal(False), ob.meta)
-    fs0 = list(probe.hyps)
-    r, _ = _solve_api(fs0 + list(str_axioms) + prelude.instantiate(fs0, lite=True), min(2000, budget_ms))
-    if r[0] == "unsat":
-        return True
-    if r[0] == "sat":
-        return False
-    r, _ = _solve_api(_all_formulas(probe, str_axioms), min(3000, budget_ms))
-    if r[0] == "unsat":
-        return True
+    # the ground-instantiated query answers quickly either way; the quantified one mostly times out
     lite, _c = build_inst(probe, str_axioms, lite=True)
     if len(lite) < 25000000:
         rl = _solve_z3(lite, budget_ms)
         if rl[0] == "unsat":
             return True
-    return False
+        if rl[0] == "sat":
+            return False
+    r, _ = _solve_api(_all_formulas(probe, str_axioms), min(3000, budget_ms))
+    return r[0] == "unsat"
 
 
 def _solve_z3(smt2, timeout_ms, seed=0):
